@@ -53,6 +53,18 @@ class C15(vlib.Check):
                 g[pos] = v
                 strs.append(bytes(g))
                 strs.append(b'00' + bytes(g))
+        # every byte value in every position of LONGER inputs (block-at-a-time decoding territory: 8..40 characters),
+        # all other characters valid
+        hexbody = b'0123456789abcdefABCDEF0123456789abcdefAB'
+        b64body = b'Zkv6FQep0/KVju5EPaQU+wxyz0123456789ABCDE'
+        for n in (8, 10, 16, 18, 24, 34, 40):
+            positions = range(n) if (n <= 18 or tier == 'thorough') else sorted(set([0, 1, 7, 8, 9, 15, 16, 17, n - 9, n - 8, n - 1]))
+            for pos in positions:
+                for v in range(256):
+                    for body in (hexbody, b64body):
+                        g = bytearray(body[:n])
+                        g[pos] = v
+                        strs.append(bytes(g))
         # seeded mutations of valid encodings of every length class
         nrand = 400 if tier == 'quick' else 8000
         for _ in range(nrand):
@@ -83,6 +95,22 @@ class C15(vlib.Check):
                     yield 'b64_dec_buf %s %d' % (h, o)
             for o in sorted(set([0, max(bl - 3, 0), max(bl - 2, 0), max(bl - 1, 0), bl, bl + 1, 64])):
                 yield 'b64_dec_buf %s %d' % (h, o)
+
+        # "unbounded" output sizes against every length class (incl. lengths that are not a multiple of 4 / 2, whose
+        # invalid-length verdict must not depend on a comparison with output_size) and against bad characters / padding
+        huge = (2 ** 31, 2 ** 32, 2 ** 63 - 1, 2 ** 63, 2 ** 64 - 2, 2 ** 64 - 1)
+        for n in list(range(0, 14)) + [16, 17, 18, 19]:
+            for body in (b'Zkv6FQep0/KVju5EPaQU', b'0123456789abcdefABCD'):
+                s0 = body[:n]
+                variants = [s0]
+                if n:
+                    variants += [s0[:-1] + b'=', s0[:-1] + b'!', b'=' + s0[1:], s0[:n // 2] + b'\x80' + s0[n // 2 + 1:]]
+                if n >= 2:
+                    variants.append(s0[:-2] + b'==')
+                for v in variants:
+                    for o in huge:
+                        yield 'b64_dec_buf %s %d' % (hx(v), o)
+                        yield 'hex_dec_buf %s %d' % (hx(v), o)
 
     def nontrivial(self, case, impl):
         t = case.split()
